@@ -158,6 +158,11 @@ def run(ctx) -> None:
         f"{pfi.module.relpath}:{ucall.lineno}",
     )
 
+    # an attribute that is read but assigned nowhere is an AttributeError in whichever library thread reads it first
+    from ..flow import check_attrs_initialised
+
+    check_attrs_initialised(ctx, RX, P, ["BaseThread", "EventEmitter", "EventDispatcher", "BaseObserver", "InotifyEmitter", "InotifyFullEmitter", "InotifyBuffer", "Inotify", "InotifyEvent", "PollingEmitter", "DelayedQueue"], "the emitter, reader or observer thread dies with an unhandled error and monitoring stops silently")
+
     # the buffer thread iterates whatever read_events returns: every normal exit must return a list
     nret = 0
     for p in paths:
@@ -472,6 +477,7 @@ VARIANTS = [
     dict(name="B emitter re-reads the buffer field after its None-test (pre-fix)", expect="fire", rule="C07/cleared-field-read-once", edits=[(IN, "            inotify = self._inotify\n            if inotify is None:\n", "            inotify = self._inotify\n            if self._inotify is None:\n"), (IN, "            event = inotify.read_event()", "            event = self._inotify.read_event()")]),
     dict(name="B descriptor decoded unsigned (overflow record passes the filter)", expect="fire", rule="C07/thread-body-exception-flow", edits=[(IC, 'struct.unpack_from("iIII", event_buffer, i)', 'struct.unpack_from("IIII", event_buffer, i)')]),
     dict(name="E reader ends its loop through its own stop event", expect="silent", edits=[(IB, "        deleted_self = False\n        while self.should_keep_running() and not deleted_self:", "        while self.should_keep_running():"), (IB, "                        # was deleted, or filesystem was unmounted), stop watching for events\n                        deleted_self = True", "                        # was deleted, or filesystem was unmounted), stop watching for events\n                        self._stopped_event.set()"), (IB, "                    # Deleted the watched directory, stop watching for events\n                    deleted_self = True", "                    # Deleted the watched directory, stop watching for events\n                    self._stopped_event.set()")]),
+    dict(name="B emitter lock never created", expect="fire", rule="C07/thread-body-exception-flow", edits=[(IN, "        self._lock = threading.Lock()\n        self._inotify: InotifyBuffer | None = None", "        self._inotify: InotifyBuffer | None = None")]),
     dict(name="B reader normalises its root", expect="fire", rule="C07/root-spelling-preserved", edits=[(IC, "        self._path = path\n", "        self._path = path = os.path.normpath(path)\n")]),
     dict(name="B emitter resolves the root before watching", expect="fire", rule="C07/root-spelling-preserved", edits=[(IN, "        path = os.fsencode(self.watch.path)\n", "        path = os.path.realpath(os.fsencode(self.watch.path))\n")]),
     dict(name="B root test against the absolute path", expect="fire", rule="C07/root-spelling-preserved", edits=[(IN, "elif event.is_delete_self and src_path == self.watch.path:", "elif event.is_delete_self and src_path == os.path.abspath(self.watch.path):")]),
